@@ -20,6 +20,27 @@ type fact struct {
 	s   string
 }
 
+// onlyAllocFacts: the expression asserts nothing but "x existed when the call started" (!fresh(x)),
+// possibly under quantifiers, conjunctions and hypotheses: true in every execution, so it may be assumed.
+func onlyAllocFacts(e Expr) bool {
+	switch x := e.(type) {
+	case *EUnary:
+		if c, ok := x.X.(*ECall); ok && x.Op == "!" && c.Fn == "fresh" {
+			return true
+		}
+	case *EBin:
+		if x.Op == "&&" {
+			return onlyAllocFacts(x.L) && onlyAllocFacts(x.R)
+		}
+		if x.Op == "==>" {
+			return onlyAllocFacts(x.R)
+		}
+	case *EQuant:
+		return x.Forall && onlyAllocFacts(x.Body)
+	}
+	return false
+}
+
 type Obl struct {
 	Name   string
 	Kind   string
@@ -1045,12 +1066,20 @@ func (g *Gen) translate() {
 	if g.fc != nil {
 		env := g.funcEnv(g.entry, g.entry, nil)
 		for i, cl := range g.fc.Clauses {
-			if cl.Kind != "requires" {
+			if cl.Kind != "requires" && cl.Kind != "objinvariant" && cl.Kind != "entryfact" {
+				continue
+			}
+			if cl.Kind == "entryfact" && !onlyAllocFacts(cl.E) {
+				g.errorf("%s: entryfact may only conclude !fresh(...) facts: %s", g.fnLabel(), cl.Text)
+				continue
+			}
+			if cl.Kind == "objinvariant" && !g.c.isOwner(g.fnLabel()) {
+				g.errorf("%s: objinvariant in a function that owns no encapsulated field", g.fnLabel())
 				continue
 			}
 			tv, err := env.evalBool(cl.E)
 			if err != nil {
-				g.errorf("%s: requires #%d: %v", g.fnLabel(), i, err)
+				g.errorf("%s: %s #%d: %v", g.fnLabel(), cl.Kind, i, err)
 				continue
 			}
 			g.assume(tv)
